@@ -26,7 +26,17 @@ def resolve_type(world, name, pkg):
     pre, base = m.group(1), m.group(2)
     cands = []
     if base.startswith('map['):
-        cands.append(name)
+        depth = 0
+        for i, ch in enumerate(base):
+            if ch == '[':
+                depth += 1
+            elif ch == ']':
+                depth -= 1
+                if depth == 0:
+                    break
+        kt = resolve_type(world, base[4:i], pkg)
+        vt = resolve_type(world, base[i + 1:], pkg)
+        cands.append('%smap[%s]%s' % (pre, kt, vt))
     elif '.' in base:
         cands.append(pre + base)
     else:
@@ -89,8 +99,16 @@ class SpecEval:
         return v.t
 
     def load(self, lv, heap=None):
-        from .symex import load_lvalue
-        return load_lvalue(self.V, heap or self.heap, lv)
+        from .symex import load_lvalue, well_typed
+        h = heap or self.heap
+        v = load_lvalue(self.V, h, lv)
+        # contents of a variable are well typed in every state (type safety): make that available to the solver
+        try:
+            for f in well_typed(self.V, h, v, lv.typ):
+                self.V.add_hyp(f)
+        except OutOfSubset:
+            pass
+        return v
 
     def ev(self, a):
         w = self.w
@@ -187,7 +205,7 @@ class SpecEval:
         if e['kind'] == 'slice':
             S = w.Slice
             el = e['elem']
-            return SV(self.heap.get(('el', el))[S.arr(s.t)][S.off(s.t) + i.t], el)
+            return SV(self.heap.get(('el', el))[S.arr(s.t)][w.ix(S.off(s.t), i.t)], el)
         if e['kind'] == 'map':
             return SV(self.heap.get(('mval', s.ty))[s.t][i.t], e['elem'])
         if e['kind'] == 'basic' and 'string' in e['name']:
@@ -348,6 +366,11 @@ class SpecEval:
         if name == 'abs':
             x = self.ev(args[0])
             return SV(z3.If(x.t >= 0, x.t, -x.t), x.ty)
+        if name in ('closed', 'sent', 'received'):
+            from .chans import gk_arr
+            v = self.ev(args[0])
+            a = self.heap.get(gk_arr({'closed': 'closed_on', 'sent': 'sent_on', 'received': 'recv_on'}[name]))[v.t]
+            return SV(a != 0, 'bool') if name == 'closed' else SV(a, 'int')
         if name == 'ghost':
             nm = args[0][1]
             for key in list(self.V.h0.keys()) + list(self.heap.d.keys()):
